@@ -5,7 +5,8 @@ Replay: (a) RBFCovariance / MaternCovariance vs autograd of the same forward in 
 values and hyperparameter gradients, (c) log_normal_cdf backward vs finite differences of its forward and vs phi/Phi, (d) natural /
 tril-natural distributions: delivered gradient = gradient w.r.t. the expectation parameters, (e) gradients of exact-GP predictions
 w.r.t. test inputs vs finite differences, (f) the CIQ natural-gradient Function, (g) KernelCalls.tla: the call-configuration lattice of the two-path kernels
-(diag, last_dim_is_batch, x2 None / equal / different, requires_grad of either input, trace_mode, shared / ARD / batched lengthscale, sizes incl. kernel batch = d = n):
+(diag, last_dim_is_batch, x2 None / equal / different, requires_grad of either input, trace_mode, shared / ARD / batched lengthscale, sizes incl. kernel batch = d = n, GEOMETRY of the
+points: unit / rows shared between two different tensors (r = 0 exactly, also on diag=True cross-covariances) / far offsets 1e3..1e5 with more than 25 rows, against the closed form on the centred points):
 values and the gradient of EVERY parameter under every forcing against autograd of the documented formula, (h) BackwardOps.tla: forward -> backward^k through ONE
 graph for every hand-written Function (directly and through the public object): every pass = upstream . dF(x), = the same pass through a fresh graph, context
 untouched; Jacobian rows, (i) WHO REQUIRES GRAD: every non-empty subset of the tensor inputs of every hand-written Function (BackwardOps.tla: BWNeedsOK; via Function.apply and
@@ -46,6 +47,9 @@ KC_DIMS = [1, 2, 3]
 KC_MODES = ["same", "clone", "eqn", "gt", "lt"]
 KC_WRAPS = ["plain", "scale"]
 KC_FORCES = ["none", "x1grad", "x2grad", "x12grad", "trace"]       # every subset of {x1, x2} requiring grad, and trace_mode
+KC_GEOMS = ["unit", "coin", "far"]                                 # geometry of the input points (KernelCalls.tla): shared rows of two different tensors; far offset with > 25 rows
+KC_GEO_BATCH = {"quick": [(0, 0), (2, 2)], "thorough": [(0, 0), (2, 2), (0, 2)]}
+KC_OFFSETS = [3, 4, 5]                                             # x = 10^e + u
 BW_MAX = 3
 BW_UP = {"quick": ["ones", "randA"], "thorough": ["ones", "randA", "randB", "unit"]}
 # the histories of the cases in which a PROPER / other subset of the inputs requires grad (MachRG = "other")
@@ -65,12 +69,13 @@ def write_mc(workdir, name, part, instances=(), inv=(), tier="quick", impure=(),
         f.write("---- MODULE %s ----\nEXTENDS Grad\nInstDef == {%s}\n" % (mod, ",\n  ".join(tla(i) for i in instances)))
         f.write("KCDimsDef == %s\nKCBatchDef == %s\nKCModesDef == %s\nKCWrapsDef == %s\nKCForcesDef == %s\n" % (
             tset(KC_DIMS), tset(KC_BATCH[tier]), tset(KC_MODES), tset(KC_WRAPS), tset(KC_FORCES)))
+        f.write("KCGeomsDef == %s\nKCGeoBatchDef == %s\nKCOffsetsDef == %s\n" % (tset(KC_GEOMS), tset(KC_GEO_BATCH[tier]), tla(list(KC_OFFSETS))))
         f.write("BWUpDef == %s\nBWImpureDef == %s\nMachShortcutDef == %s\n" % (tset(ups if ups is not None else BW_UP[tier]), tset(tuple(i) for i in impure), tset(tuple(i) for i in shortcut)))
         f.write("MachFnsDef == %s\n====\n" % tset(fns if fns is not None else ALL_FNS))
     cfg = os.path.join(workdir, mod + ".cfg")
     tlc.write_cfg(cfg, spec="GSpec", invariants=list(inv),
                   constants={"Part": part, "Instances": "<- InstDef", "KCDims": "<- KCDimsDef", "KCBatch": "<- KCBatchDef", "KCModes": "<- KCModesDef", "KCWraps": "<- KCWrapsDef",
-                             "KCForces": "<- KCForcesDef", "BWMaxBwd": bwmax, "BWUpstreams": "<- BWUpDef", "BWImpure": "<- BWImpureDef", "MachFns": "<- MachFnsDef",
+                             "KCForces": "<- KCForcesDef", "KCGeoms": "<- KCGeomsDef", "KCGeoBatch": "<- KCGeoBatchDef", "KCOffsets": "<- KCOffsetsDef", "BWMaxBwd": bwmax, "BWUpstreams": "<- BWUpDef", "BWImpure": "<- BWImpureDef", "MachFns": "<- MachFnsDef",
                              "MachRG": machrg, "MachShortcut": "<- MachShortcutDef"})
     return os.path.join(workdir, mod + ".tla"), cfg
 
@@ -787,7 +792,7 @@ def run(ck):
     rnd = random.Random(ck.seed)
     ck.rule = ("cells = the branch lattice of Grad.tla: covariance Function x nu x coincident points x batch x upstream; every fast cell of the kernel lattice paired with a forcing of the "
                "generic branch; LogNormalCDF grid z = n/20 in [-12, 8] + far tail with the forward/backward masks; natural / tril-natural x size x batch x loss; CIQ; prediction gradients; "
-               "call-configuration lattice of KernelCalls.tla (every valid cell x every forcing); every maximal history (<= 3 passes; upstream gradients x grad / accumulate / release, "
+               "call-configuration lattice of KernelCalls.tla (every valid cell x every forcing; geometry of the points: unit / shared rows of two tensors / far offset 1e3..1e5 with > 25 rows); every maximal history (<= 3 passes; upstream gradients x grad / accumulate / release, "
                "Jacobian rows) of the backward machine of BackwardOps.tla x Function x route x input class; the same machine (<= 2 passes) x every other non-empty subset of the inputs "
                "requiring grad (refused calls of the bare covariance Functions included); nat / ciq cells x training subset; every call cell x every subset of {x1, x2} requiring grad; SGPR cells; "
                "exact = rational instances evaluated by TLC; non-trivial = a cell with r = 0 entries / batch / random upstream, a forced pair, every grid point, M >= 2, every call cell, "
@@ -808,6 +813,14 @@ def run(ck):
         "the nu = 1/2 exception of (b) applies when x1 equals x2; every library hyperparameter gradient is taken as the SECOND pass through its graph; the FIRST pass (another random upstream) "
         "delivers the gradients of the input tensors that require grad, compared at 1e-7 with autograd of the documented formula; which branch ran is observed with a spy on the Function "
         "(a mismatch with KernelCalls.tla is MODEL-DRIFT)",
+        "(g) geometry of the inputs (KernelCalls.tla: geom): 'coin' = two different tensors sharing rows (r = 0 exactly on a diagonal and an off-diagonal position; one pair agreeing in the first coordinate "
+        "only: r = 0 in one per-dimension kernel of last_dim_is_batch), on every call form with two tensors incl. diag=True: every gradient finite and equal to the reference, whose r = 0 entries are "
+        "constant in every parameter and input (zero sub-gradient; nu = 1/2 input gradients carry no weight there); 'far' = points 10^e + u, e in {3, 4, 5} (every combination of the other fields meets every e "
+        "as d runs over 1..3), u a jittered grid per coordinate (gaps >= 1 / (n1 + n2)), 27-29 rows on a side: values 1e-11 (+ 1e-12) against the closed form on the CENTRED points u (x - 10^e is exact), "
+        "plus the first-order effect of the rounding of the points handed in (u_r |x| / l per scaled coordinate, u_r = 2^-53; granted x 2: 4 u_r 10^e / l_min on values, 8 u_r 10^e / l_min^2 sum|upstream| on "
+        "gradients) - LINEAR in 10^e / l: RBF divides by the lengthscale before sq_dist centres and uses this allowance (measured 1.5 u_r 10^e / l), the Matern paths centre first (measured 2e-14); "
+        "an un-centred quadratic expansion (error u_r (10^e / l)^2) is 10^e / l times outside; geometries other than 'unit' only for plain kernels and the batch pairs %r; shared rows are not combined with "
+        "> 25 rows (torch.cdist then returns sqrt(rounding) ~ 1e-8 instead of 0: the kink of nu = 1/2)" % (KC_GEO_BATCH[ck.tier],),
         "(i) requires-grad subsets: a gradient of None is accepted for an input that requires grad exactly when the reference derivative is zero (diag of k(x, x)); exp(-r) (nu = 1/2) is not differentiable "
         "in the inputs at r = 0: upstream gradients of input-gradient passes carry no weight on coincident entries there; for nu = 3/2, 5/2 the coincident entries are stationary points (reference: safe root); "
         "the bare covariance Functions may refuse (raise) a call in which x1 or x2 requires grad - a call they accept must deliver the complete derivative to every input; a frozen parameter is "
@@ -899,6 +912,14 @@ def run(ck):
     n_unsound = sum(1 for _, o in calls if not o["sound"])
     if not calls or not n_fast or not n_unsound or not any(c["ldb"] and c["kb"] == c["d"] for c, _ in calls):
         ck.vacuous("call-configuration lattice: %d cells, %d on the fast branch, %d the Function must not see" % (len(calls), n_fast, n_unsound))
+    # the geometry dimension: shared rows of two different tensors on every call form incl. diag=True; far offsets above the cdist threshold on fast and generic cells
+    geo_n = collections.Counter(c["geom"] for c, _ in calls)
+    n_coin_diag = sum(1 for c, o in calls if c["geom"] == "coin" and c["diag"] and any(p[0] == p[1] for p in o["geo"]["pairs"]))
+    n_far_cdist = sum(1 for c, o in calls if c["geom"] == "far" and o["geo"]["helper"] == "cdist" and o["geo"]["quad"] in (True, "True", "TRUE") and o["paths"]["none"] == "fast" and max(int(o["geo"]["n1"]), int(o["geo"]["n2"])) > 25)
+    offs = sorted({int(o["geo"]["off"]) for c, o in calls if c["geom"] == "far"})
+    if not geo_n["coin"] or not n_coin_diag or not n_far_cdist or offs != sorted(KC_OFFSETS) or any(c["geom"] == "coin" and c["mode"] in ("same", "clone") for c, _ in calls):
+        ck.vacuous("call-configuration lattice, geometry: %r cells, %d diag=True cells with a shared row on the diagonal, %d far fast cells through the expansion of torch.cdist, offsets %r" % (
+            dict(geo_n), n_coin_diag, n_far_cdist, offs))
     n_one = sum(1 for c, o in calls for f, w in o["wants"].items() if len(w) == 1 and c["mode"] != "same" and o["paths"]["none"] == "fast")
     if not n_one or not any(w == ["x1", "x2"] for _, o in calls for w in o["wants"].values()):
         ck.vacuous("call-configuration lattice: no fast cell evaluated with exactly one of two different input tensors requiring grad / none with both")
@@ -965,7 +986,8 @@ def run(ck):
     ck.extra["failing_signature_counts"] = dict(sorted(sigs.items()))
     ck.exhaustive = False
     ck.section("lattice", **{k + "_cells": v for k, v in kinds.items()})
-    ck.section("calls", cells=len(calls), default_branch_fast=n_fast, configurations_the_function_must_not_see=n_unsound,
+    ck.section("calls", cells=len(calls), default_branch_fast=n_fast, configurations_the_function_must_not_see=n_unsound, **{"geometry_" + k: v for k, v in geo_n.items()},
+               diag_cells_with_a_shared_row_on_the_diagonal=n_coin_diag, far_fast_cells_through_the_expansion_of_cdist=n_far_cdist, far_offset_exponents=offs,
                evaluations_incl_forcings=sum(len(o["paths"]) for _, o in calls))
     ck.section("requires_grad", other_subsets={fn: sorted("+".join(t) for t in v) for fn, v in rg_seen.items()}, passes_per_graph_max=BW_MAX_RG, upstreams=BW_UP_RG[ck.tier],
                calls_with_exactly_one_of_two_tensors_requiring_grad_on_fast_cells=n_one, **dict(n_rg))
